@@ -1,5 +1,8 @@
 \* C05 quick tier: every (switch group, operand, operand, target) over all arithmetic types, six enum
 \* flavours, bit-fields of _Bool/int/unsigned/long/unsigned long and of enum eu at all ten widths.
+\* Devs: deviations of the shipped code still open. Fixed in /repo and therefore removed (a regression is a VIOLATION):
+\* CondSameTypeNoConversion (ba99903), ConvertKeepsCompatible + SizeofSeesBitfield (4c7c95a), DerefDecayedArrayDropsQual (13d3f3d),
+\* UacKeepsWideEnum (60245bf)
 SPECIFICATION Spec
 CONSTANTS
   TargetSet = {"x86_64-sysv", "aarch64", "riscv64"}
@@ -7,7 +10,7 @@ CONSTANTS
   BFKinds = {"bool", "int", "uint", "long", "ulong"}
   EnumOps = {"eu", "es", "eul", "el", "efs", "efuc"}
   EnumBFs = {"eu"}
-  Devs = {"CondSameTypeNoConversion", "CompositeIsFirst", "UacKeepsWideEnum", "SizeofSeesBitfield", "ConvertKeepsCompatible", "ArrayQualOnArrayType", "DerefDecayedArrayDropsQual"}
+  Devs = {"CompositeIsFirst", "ArrayQualOnArrayType"}
   Forms = {"bin", "cond", "un", "lit", "flt", "chr"}
   Emit = TRUE
 INVARIANTS Inv_Refines Inv_DevsExplain Inv_NoFatal Inv_UacSymmetric Inv_UacHoldsBoth Inv_PromoteIdempotent Inv_Emit
